@@ -13,6 +13,7 @@ import (
 	"fmt"
 	"net"
 	"os"
+	"strconv"
 	"strings"
 	"sync"
 	"sync/atomic"
@@ -692,7 +693,21 @@ func TestC10Close(t *testing.T) {
 				time.Sleep(5 * time.Millisecond)
 			}
 			_ = n.Close()
-			if err != nil {
+			foreign := false
+			if err != nil && tr != "ipc" && tr != "inproc" {
+				// the port may have been taken by an unrelated process once it was free
+				hp := addr[strings.Index(addr, "://")+3:]
+				if i := strings.Index(hp, "/"); i >= 0 {
+					hp = hp[:i]
+				}
+				if _, ps, e := net.SplitHostPort(hp); e == nil {
+					if pn, e := strconv.Atoi(ps); e == nil && !fixture.OwnsListeningPort(pn) {
+						foreign = true
+						stats.Class("address_taken_by_another_process")
+					}
+				}
+			}
+			if err != nil && !foreign {
 				fail("address-leak", "the address %s cannot be listened on again %v after its socket was closed: %v", addr, prompt, err)
 			}
 			fixture.WaitNoMangosGoroutines(prompt)
